@@ -4,8 +4,8 @@ from common import *
 
 
 def run_codec(work, tier, res, faults):
-    n = 40 if tier == "quick" else 600
-    sc = {"n": n, "seed": seed() * 17 + 3, "stride": 1 if faults else 50, "fault_sources": (4 if tier == "quick" else 40) if faults else 1,
+    n = 40 if tier == "quick" else 4000
+    sc = {"n": n, "seed": seed() * 17 + 3, "stride": 1 if faults else 50, "fault_sources": (4 if tier == "quick" else 200) if faults else 1,
           "hang_file": work.path("hang.txt")}
     try:
         h = run_harness("codec", [sc], work, "codec", timeout=3000)
